@@ -1,6 +1,8 @@
 """C08 layer (c): end to end on the real binary (pty + --listen, built with -tags verif).
-Event sequences over query edits, sort toggles, exclusion, change-nth, reload / reload-sync, input arriving on stdin in
-pieces, end of input, and a hook that holds every scan chunk ("a search is in progress") until released.
+Event sequences over query edits, sort toggles, exclusion, change-nth, reload / reload-sync (immediate, slow-starting,
+two-batch with an unchanged item count), input arriving on stdin in pieces, end of input, a hook that holds every scan
+chunk ("a search is in progress"), and BURSTs: two requests delivered while the coordinator is parked at a hook point,
+i.e. inside one polling interval.
 Oracle (eventual agreement): GET / {query, matches, counts} == `fzf --filter <query>` over the currently loaded input."""
 import itertools
 import os
@@ -14,9 +16,13 @@ import sweep
 INPUT1 = ["ab x", "b a", "a:b c", "xx", "ba ab", "c a", "abc", "a"]
 INPUT2 = ["zz", "ab q", "qa b", "a"]
 MORE = ["more a", "b more", "ab"]
-EVENTS = ["put(a)", "put(b)", "backward-delete-char", "clear-query", "change-query(a b)", "toggle-sort", "exclude", "up",
-          "change-nth(2)", "change-nth(1)", "RELOAD2", "RELOAD1", "RELOADSYNC2", "backward-delete-char+put(c)", "put(a)+put(b)",
-          "beginning-of-line+forward-char+backward-delete-char+put(b)", "STDIN-MORE", "STDIN-EOF", "HOLD", "RELEASE", "RELOAD-2BATCH-SAMECOUNT", "RELOAD-SLOWSTART", "EXCLUDE+RELOAD-SLOWSTART"]
+BASE_EVENTS = ["put(a)", "put(b)", "backward-delete-char", "clear-query", "change-query(a b)", "toggle-sort", "exclude", "up",
+               "change-nth(2)", "change-nth(1)", "RELOAD2", "RELOAD1", "RELOADSYNC2", "backward-delete-char+put(c)", "put(a)+put(b)",
+               "beginning-of-line+forward-char+backward-delete-char+put(b)", "STDIN-MORE", "STDIN-EOF", "HOLD", "RELEASE",
+               "RELOAD-2BATCH-SAMECOUNT", "RELOAD-SLOWSTART", "EXCLUDE+RELOAD-SLOWSTART"]
+BURST_PARTS = ["RELOAD1", "change-nth(2)", "exclude", "put(a)", "backward-delete-char", "toggle-sort"]
+BURSTS = ["BURST:%s|%s" % (a, b) for a in BURST_PARTS for b in BURST_PARTS if a != b]
+EVENTS = BASE_EVENTS + BURSTS
 
 
 def oracle(lines, query, sort, nth, excluded):
@@ -29,172 +35,205 @@ def oracle(lines, query, sort, nth, excluded):
     return [l for l in out if l not in excluded]
 
 
+class World:
+    """the driver's model of one session: what is loaded, the query line, options, exclusions, what is in flight"""
+
+    def __init__(self, s, base, f1, f2):
+        self.s, self.f1, self.f2 = s, f1, f2
+        self.q, self.cx = [], 0
+        self.sort, self.nth = True, None
+        self.lines, self.excluded, self.cy = list(base), [], 0
+        self.stdin_open, self.from_stdin = True, True
+        self.pending_reload = None   # content of a reload that has been issued but cannot have landed yet
+        self.nreload = 0
+        self.held = False            # searches held by the matcher:chunk hook
+
+    def current(self):
+        return oracle(self.lines, "".join(self.q), self.sort, self.nth, self.excluded)
+
+    def apply_pending(self):
+        if self.pending_reload is not None:
+            self.lines, self.excluded, self.from_stdin, self.pending_reload = list(self.pending_reload), [], False, None
+
+    def reload_content(self, which):
+        # every reloaded line carries the number of its reload: "the reload has landed" is then visible in the texts of the
+        # match list (a count alone can be reported before the new list is displayed)
+        self.nreload += 1
+        return ["%s ~%d" % (l, self.nreload) for l in (INPUT2 if which == 2 else INPUT1)]
+
+    def edit(self, a):
+        q, cx = self.q, self.cx
+        if a.startswith("put("):
+            q = q[:cx] + [a[4:-1]] + q[cx:]
+            cx += 1
+        elif a == "backward-delete-char":
+            if cx > 0:
+                q = q[:cx - 1] + q[cx:]
+                cx -= 1
+        elif a == "clear-query":
+            q, cx = [], 0
+        elif a.startswith("change-query("):
+            q = list(a[13:-1])
+            cx = len(q)
+        elif a == "beginning-of-line":
+            cx = 0
+        elif a == "forward-char":
+            cx = min(len(q), cx + 1)
+        elif a == "toggle-sort":
+            self.sort = not self.sort
+        elif a == "up":
+            self.cy = min(self.cy + 1, max(0, len(self.cur_before) - 1))
+        elif a == "exclude":
+            self.cy = min(self.cy, max(0, len(self.cur_before) - 1))
+            if self.cur_before:
+                self.excluded.append(self.cur_before[self.cy])
+        elif a.startswith("change-nth("):
+            self.nth = a[11:-1]
+        self.q, self.cx = q, cx
+
+    def post_reload(self, body, content, immediate=True):
+        self.s.post(body)
+        self.pending_reload = content
+        if immediate and not (self.stdin_open and self.from_stdin):
+            self.apply_pending()
+
+    def do(self, ev):
+        """issue one event; returns False when the event does not apply in this state"""
+        s = self.s
+        self.cur_before = self.current()
+        if ev == "HOLD":
+            s.hooks.auto.discard("matcher:chunk")
+            self.held = True
+        elif ev == "RELEASE":
+            s.hooks.auto.add("matcher:chunk")
+            while s.hooks.release("matcher:chunk"):
+                pass
+            self.held = False
+        elif ev == "STDIN-MORE":
+            if not self.stdin_open:
+                return False
+            try:
+                s.feed_stdin("".join(l + "\n" for l in MORE))
+            except (BrokenPipeError, OSError):
+                # fzf closed its stdin (a reload terminated the stdin reader): nothing is read any more
+                s.close_stdin()
+                self.stdin_open = False
+                self.apply_pending()
+                return True
+            if self.from_stdin:
+                self.lines = self.lines + MORE
+        elif ev == "STDIN-EOF":
+            if not self.stdin_open:
+                return False
+            s.close_stdin()
+            self.stdin_open = False
+            self.apply_pending()
+        elif ev == "RELOAD-2BATCH-SAMECOUNT":
+            # the input arrives in two batches and ends with exactly as many lines as are loaded now
+            self.nreload += 1
+            n = max(2, len(self.lines))
+            new = ["s%d-%d %s" % (self.nreload, i, "ab"[i % 2]) for i in range(n)]
+            k = max(1, n // 2)
+            self.post_reload("reload(printf '%%s\\n' %s; sleep 0.3; printf '%%s\\n' %s)" % (" ".join("'%s'" % l for l in new[:k]), " ".join("'%s'" % l for l in new[k:])), new)
+        elif ev in ("RELOAD-SLOWSTART", "EXCLUDE+RELOAD-SLOWSTART"):
+            if ev.startswith("EXCLUDE"):
+                self.edit("exclude")
+                s.post("exclude")
+            # the command stays silent for a while: the following events are handled in the gap before its first output
+            new = self.reload_content(2)
+            self.post_reload("reload(sleep 0.5; printf '%%s\\n' %s)" % " ".join("'%s'" % l for l in new), new, immediate=False)
+        elif ev.startswith("RELOAD"):
+            new = self.reload_content(2 if ev.endswith("2") else 1)
+            self.post_reload(("reload-sync" if "SYNC" in ev else "reload") + "(printf '%%s\\n' %s)" % " ".join("'%s'" % l for l in new), new)
+        elif ev.startswith("BURST:"):
+            # two requests inside ONE polling interval of the coordinator: park it at core:wait (a first request makes it come
+            # round to the hook point), issue both, release
+            a, b = ev[6:].split("|")
+            displayed = self.current()  # while the coordinator is parked nothing new is displayed: exclude / up act on this list
+            s.hooks.auto.discard("core:wait")
+            s.post("toggle-sort")
+            self.cur_before = displayed
+            self.edit("toggle-sort")
+            t0 = time.time()
+            while time.time() - t0 < 5 and not s.hooks.held("core:wait"):
+                s.pump(0.005)
+            for part in (a, b):
+                self.cur_before = displayed
+                if part.startswith("RELOAD"):
+                    new = self.reload_content(1)
+                    self.post_reload("reload(printf '%%s\\n' %s)" % " ".join("'%s'" % l for l in new), new)
+                else:
+                    s.post(part)
+                    self.edit(part)
+            s.hooks.auto.add("core:wait")
+            while s.hooks.release("core:wait"):
+                pass
+        else:
+            s.post(ev)
+            for a in ev.split("+"):
+                self.edit(a)
+        return True
+
+    def settled(self):
+        """can the per-event agreement be demanded now?"""
+        return not self.held and self.pending_reload is None
+
+    def agree(self, x):
+        want = self.want
+        return (x["query"] == "".join(self.q) and [m["text"] for m in x["matches"]] == want and x["matchCount"] == len(want)
+                and x["totalCount"] == len(self.lines) and (self.stdin_open and self.from_stdin or not x["reading"]))
+
+
 def run_seq(job):
-    start_big, seq = job
+    start, seq = job
     res = dict(evals=1, nt=1 if seq else 0, trans=len(seq))
     d = tempfile.mkdtemp(prefix="c08-", dir=P.WORKROOT)
     s = None
     try:
-        f1, f2 = d + "/in1", d + "/in2"
         base = list(INPUT1)
-        if start_big == 1:
+        if start == 1:
             base = base + ["filler %d %s" % (i, "ab"[i % 2]) for i in range(230)]  # three chunks
-        open(f1, "w").write("".join(l + "\n" for l in INPUT1))
-        open(f2, "w").write("".join(l + "\n" for l in INPUT2))
         s = P.Session(["--no-scrollbar"], None, rows=14, cols=60, stdin_data="".join(l + "\n" for l in base).encode(), keep_stdin=True,
-                      hook_points=["matcher:chunk"], hook_auto=["matcher:chunk"])
-        q, sort, nth, lines, excluded, cy = [], True, None, list(base), [], 0
-        stdin_open, from_stdin = True, True
-        nreload = 0
-        landing = False
-        slow_until = 0
-        pending_reload = None  # a reload issued while stdin is still being read starts when that read ends
-
-        def apply_pending():
-            nonlocal lines, excluded, from_stdin, pending_reload
-            if pending_reload is not None:
-                lines, excluded, from_stdin, pending_reload = list(pending_reload), [], False, None
-        if start_big == 2:
-            s.close_stdin()
-            stdin_open = False
-        st, ok = s.wait_state(lambda x: x["totalCount"] == len(lines), 10.0)
+                      hook_points=["matcher:chunk", "core:wait"], hook_auto=["matcher:chunk", "core:wait"])
+        w = World(s, base, None, None)
+        w.want = w.current()
+        x, ok = s.wait_state(w.agree, 10.0)  # the initial list is displayed, not merely counted
         if not ok:
             res["inconclusive"] = "initial load"
             return res
+        if start == 2:
+            s.close_stdin()
+            w.stdin_open = False
         for ev in seq:
-            cur = oracle(lines, "".join(q), sort, nth, excluded)
-            if ev == "HOLD":
-                s.hooks.auto = set()
+            if not w.do(ev):
                 continue
-            if ev == "RELEASE":
-                s.hooks.release_all()
-                continue
-            if ev == "STDIN-MORE":
-                if stdin_open:
-                    try:
-                        s.feed_stdin("".join(l + "\n" for l in MORE))
-                    except (BrokenPipeError, OSError):
-                        # fzf closed its stdin (a reload terminated the stdin reader): nothing is read any more
-                        s.close_stdin()
-                        stdin_open = False
-                        apply_pending()
-                        continue
-                    if from_stdin:
-                        lines = lines + MORE
-                else:
-                    continue
-            elif ev == "STDIN-EOF":
-                if stdin_open:
-                    s.close_stdin()
-                    stdin_open = False
-                    apply_pending()
-                else:
-                    continue
-            elif ev == "RELOAD-2BATCH-SAMECOUNT":
-                # a reload whose input arrives in two batches and ends with exactly as many lines as are loaded now
-                nreload += 1
-                n = max(2, len(lines))
-                new = ["s%d-%d %s" % (nreload, i, "ab"[i % 2]) for i in range(n - 1)] + ["rl%d a" % nreload]
-                k = max(1, n // 2)
-                s.post("reload(printf '%%s\\n' %s; sleep 0.3; printf '%%s\\n' %s)" % (" ".join("'%s'" % l for l in new[:k]), " ".join("'%s'" % l for l in new[k:])))
-                pending_reload = new
-                if not (stdin_open and from_stdin):
-                    apply_pending()
-            elif ev in ("RELOAD-SLOWSTART", "EXCLUDE+RELOAD-SLOWSTART"):
-                if ev.startswith("EXCLUDE"):
-                    # exclusions are dropped by the reload, whatever happens in the gap before its first output
-                    cy = min(cy, max(0, len(cur) - 1))
-                    if cur:
-                        excluded.append(cur[cy])
-                    s.post("exclude")
-                # the command stays silent for a while: the following events are handled in the gap before its first output
-                nreload += 1
-                marker = "rl%d a" % nreload
-                s.post("reload(sleep 0.5; cat %s; echo %s)" % (f2, marker))
-                pending_reload = list(INPUT2) + [marker]
-                slow_until = time.time() + 0.45
-                if not (stdin_open and from_stdin):
-                    # the reload is running but has not delivered anything: it lands at the end of the sequence (or when the driver waits)
-                    landing = True
-            elif ev.startswith("RELOAD"):
-                which = f2 if ev.endswith("2") else f1
-                # a per-reload marker line makes "the reload has landed" observable even when the content repeats
-                nreload += 1
-                marker = "rl%d a" % nreload
-                s.post(("reload-sync" if "SYNC" in ev else "reload") + "(cat %s; echo %s)" % (which, marker))
-                pending_reload = list(INPUT2 if which == f2 else INPUT1) + [marker]
-                if not (stdin_open and from_stdin):
-                    apply_pending()
-            else:
-                s.post(ev)
-                for a in ev.split("+"):
-                    if a.startswith("put("):
-                        pass
-                # the query after the chain comes from the C09 editor model restricted to what is used here
-                qq, cx = q, len(q) if not hasattr(run_seq, "_cx") else run_seq._cx
-                cx = res.get("_cx", len(q))
-                for a in ev.split("+"):
-                    if a.startswith("put("):
-                        qq = qq[:cx] + [a[4:-1]] + qq[cx:]
-                        cx += 1
-                    elif a == "backward-delete-char":
-                        if cx > 0:
-                            qq = qq[:cx - 1] + qq[cx:]
-                            cx -= 1
-                    elif a == "clear-query":
-                        qq, cx = [], 0
-                    elif a.startswith("change-query("):
-                        qq = list(a[13:-1])
-                        cx = len(qq)
-                    elif a == "beginning-of-line":
-                        cx = 0
-                    elif a == "forward-char":
-                        cx = min(len(qq), cx + 1)
-                    elif a == "toggle-sort":
-                        sort = not sort
-                    elif a == "up":
-                        cy = min(cy + 1, max(0, len(cur) - 1))
-                    elif a == "exclude":
-                        cy = min(cy, max(0, len(cur) - 1))
-                        if cur:
-                            excluded.append(cur[cy])
-                    elif a.startswith("change-nth("):
-                        nth = a[11:-1]
-                q = qq
-                res["_cx"] = cx
-            if (s.hooks.auto == set() and ev not in ("RELEASE",)) or pending_reload is not None:
-                # searches are held / a reload waits for the end of stdin: nothing can be demanded yet
-                continue
-            want = oracle(lines, "".join(q), sort, nth, excluded)
-
-            def agree(x, want=want, q=q, lines=lines):
-                return (x["query"] == "".join(q) and [m["text"] for m in x["matches"]] == want and x["matchCount"] == len(want)
-                        and x["totalCount"] == len(lines) and (stdin_open or not from_stdin or not x["reading"]))
-            x, ok = s.wait_state(agree, deadline=10.0)
+            if not w.settled():
+                continue  # searches are held / a reload waits for the end of stdin: nothing can be demanded yet
+            w.want = w.current()
+            x, ok = s.wait_state(w.agree, deadline=10.0)
             if not ok:
                 got = None if x is None else {"query": x["query"], "matches": [m["text"] for m in x["matches"]], "matchCount": x["matchCount"],
                                               "total": x["totalCount"], "reading": x["reading"]}
-                res["violation"] = ("not-converged-after:" + ev.split("(")[0].split("+")[0], {"start_big": start_big, "sequence": seq, "at": ev, "fzf": got,
-                                    "want": {"query": "".join(q), "matches": want, "total": len(lines)}})
-                res.pop("_cx", None)
+                kind = "burst" if ev.startswith("BURST:") else ev.split("(")[0].split("+")[0]
+                res["violation"] = ("not-converged-after:" + kind, {"start": start, "sequence": seq, "at": ev, "fzf": got,
+                                    "want": {"query": "".join(w.q), "matches": w.want, "total": len(w.lines)}})
                 return res
-            cy = x["position"]
+            w.cy = x["position"]
         # end of the sequence: release held searches, end the input, and demand convergence
         s.hooks.release_all()
-        if stdin_open:
+        w.held = False
+        if w.stdin_open:
             s.close_stdin()
-            stdin_open = False
-        apply_pending()
-        want = oracle(lines, "".join(q), sort, nth, excluded)
-        x, ok = s.wait_state(lambda x: x["query"] == "".join(q) and [m["text"] for m in x["matches"]] == want and x["matchCount"] == len(want)
-                             and x["totalCount"] == len(lines) and not x["reading"], deadline=10.0)
-        res.pop("_cx", None)
+            w.stdin_open = False
+        w.apply_pending()
+        w.want = w.current()
+        x, ok = s.wait_state(w.agree, deadline=10.0)
         res["outcome"] = "converged" if ok else "not-converged"
         if not ok:
             got = None if x is None else {"query": x["query"], "matches": [m["text"] for m in x["matches"]], "matchCount": x["matchCount"],
                                           "total": x["totalCount"], "reading": x["reading"]}
-            res["violation"] = ("not-converged-at-quiescence", {"start_big": start_big, "sequence": seq, "fzf": got,
-                                                                "want": {"query": "".join(q), "matches": want, "total": len(lines)}})
+            res["violation"] = ("not-converged-at-quiescence", {"start": start, "sequence": seq, "fzf": got,
+                                                                "want": {"query": "".join(w.q), "matches": w.want, "total": len(w.lines)}})
         return res
     finally:
         if s:
@@ -211,9 +250,20 @@ def layer_c(c, replay=None):
         sweep.run_jobs(c, "end-to-end", run_seq, [(j[0], tuple(j[1]))], deadline_s=120, confirm=1)
         return
     depth = c.pick(2, 3)
-    jobs = [(big, q) for big in (0, 1, 2) for d in range(1, depth + 1) for q in itertools.product(EVENTS, repeat=d)
-            if not (d == 3 and big == 1)]
-    c.bounds["end_to_end"] = dict(events=EVENTS, depth=depth, start_states=["8 lines, stdin open", "238 lines (three chunks), stdin open", "8 lines, input ended"], sessions=len(jobs))
-    sweep.run_jobs(c, "end-to-end", run_seq, jobs, deadline_s=c.pick(150, 1500),
-                   rule="every event sequence up to the depth from two start states on the real binary; after every event (unless searches are held by the "
-                        "matcher:chunk hook) and at quiescence GET / must equal fzf --filter of the current query over the currently loaded input")
+    jobs = [(st, q) for st in (0, 1, 2) for d in range(1, depth + 1) for q in itertools.product(BASE_EVENTS, repeat=d) if not (d == 3 and st == 1)]
+    # bursts: alone, and after / before one ordinary event
+    for st in (0, 1, 2):
+        for b in BURSTS:
+            jobs.append((st, (b,)))
+            if c.thorough:
+                for e in BASE_EVENTS:
+                    jobs.append((st, (e, b)))
+                    jobs.append((st, (b, e)))
+            else:
+                jobs.append((st, ("put(b)", b)))
+    c.bounds["end_to_end"] = dict(events=BASE_EVENTS, bursts="%d ordered pairs of request-carrying actions delivered while the coordinator is parked at core:wait" % len(BURSTS), depth=depth,
+                                  start_states=["8 lines, stdin open", "238 lines (three chunks), stdin open", "8 lines, input ended"], sessions=len(jobs))
+    sweep.run_jobs(c, "end-to-end", run_seq, jobs, deadline_s=c.pick(200, 3600),
+                   rule="every event sequence up to the depth from three start states on the real binary, plus bursts (two requests within one coordinator interval, forced with the "
+                        "core:wait hook); after every event (unless searches are held or a reload cannot have landed) and at quiescence GET / must equal fzf --filter of the current "
+                        "query over the currently loaded input")
